@@ -3157,6 +3157,13 @@ func (v *Float64) Compare(val TypedValue) (int, error) {
 		return -res, err
 	}
 
+	if i, isInt := val.RawValue().(int64); isInt && val.Type() == IntegerType {
+		// compared exactly: converting the integer to a float makes integers beyond
+		// 2^53 equal to neighbouring floats (MaxInt64 = 2^63), which no index key,
+		// scan range or hash-join key agrees with
+		return compareFloatWithInt(v.val, i), nil
+	}
+
 	convVal, err := mayApplyImplicitConversion(val.RawValue(), Float64Type)
 	if err != nil {
 		return 0, err
@@ -3180,6 +3187,29 @@ func (v *Float64) Compare(val TypedValue) (int, error) {
 	}
 
 	return -1, nil
+}
+
+// compareFloatWithInt compares f with i without rounding either of them.
+func compareFloatWithInt(f float64, i int64) int {
+	switch {
+	case f >= 9223372036854775808.0: // 2^63
+		return 1
+	case f < -9223372036854775808.0:
+		return -1
+	}
+
+	t := math.Trunc(f) // |t| < 2^63: int64(t) is exact
+	switch ti := int64(t); {
+	case ti < i:
+		return -1
+	case ti > i:
+		return 1
+	case f > t:
+		return 1
+	case f < t:
+		return -1
+	}
+	return 0
 }
 
 // WindowFnExp represents a window function expression: fn(...) OVER (PARTITION BY ... ORDER BY ...)
